@@ -97,6 +97,8 @@ AutoConv(M, m, iv) ==
                         v |-> IF iv.T = "anyURI" THEN [t |-> "uri", u |-> iv.u]
                               ELSE [t |-> NativeT[iv.T], v |-> iv.v]]
     [] iv.t = "plit" -> [ok |-> TRUE, v |-> [t |-> "str", v |-> iv.v], M |-> M]
+    \* Literal(ISO text of a datetime, xsd:string) / Literal(ISO text): the string
+    [] iv.t = "isolit" -> [ok |-> TRUE, v |-> [t |-> "isostr", v |-> iv.v], M |-> M]
     [] iv.t = "lit"  -> LET r == ResolveQNF(M[m], AncTbl(M, m), iv.dt.p, iv.dt.ns, iv.dt.l)   \* datatype re-homed
                         IN [ok |-> TRUE, v |-> [iv EXCEPT !.dt = r.q], M |-> [M EXCEPT ![m] = r.st]]
     [] OTHER         -> [ok |-> TRUE, v |-> iv, M |-> M]
@@ -121,7 +123,7 @@ ApplyPair(M, m, rec, pr, isColl) ==
                ELSE [ok |-> FALSE, v |-> pr[2], M |-> ra.M]
             ELSE IF IsTimeAttr(a) THEN
                \* a datetime, an ISO string, or a typed literal that converts to one of them
-               IF pr[2].t \in {"dt", "iso"} \/ (pr[2].t = "nlit" /\ pr[2].T = "dateTime")
+               IF pr[2].t \in {"dt", "iso", "isolit"} \/ (pr[2].t = "nlit" /\ pr[2].T = "dateTime")
                THEN [ok |-> TRUE, v |-> [t |-> "dt", v |-> pr[2].v], M |-> ra.M]
                ELSE [ok |-> FALSE, v |-> pr[2], M |-> ra.M]
             ELSE AutoConv(ra.M, m, pr[2])
